@@ -75,7 +75,8 @@ let rec diff path (m : Tree.nt) (i : Tree.nt) : string =
 let show_ev = function Tree.EvFree (p, o) -> Printf.sprintf "F:%s:%s" (string_of_n p) (string_of_n o) | Tree.EvAlloc n -> Printf.sprintf "A:%s" (string_of_n n)
 
 let run mode file =
-  let want04 = (mode = "tree04") and want07 = (mode = "tree07") in
+  let want04 = (mode = "tree04" || mode = "ntree04") and want07 = (mode = "tree07" || mode = "ntree07") in
+  let nested = (mode = "ntree04" || mode = "ntree07") in
   let ic = open_in file in
   let cases = ref 0 and ops = ref 0 in
   let case_id = ref "" and ps = ref BinNums.N0 and fill = ref BinNums.N0 and inline = ref false in
@@ -83,9 +84,67 @@ let run mode file =
   let flags = ref [] in
   let flag f = if not (List.mem f !flags) then flags := f :: !flags in
   let digest = ref "" in
+  let raw_children = ref [] (* children whose trees were printed with full values *) in
+  let children = ref [] (* name, seq, pre tree *) and corders = ref [] and cposts = ref [] (* name, inline, tree *) in
   let report want kind rule i m =
     if want then Printf.printf "%s case=%s op=1 (commit) rule=%s impl=%s model=%s\n" kind !case_id rule i m in
   let fuel = nat_of_int 24 in
+  let multiset l = List.sort compare l in
+  let strip s = match String.split_on_char ':' s with ["A"; k; _] -> "A:" ^ k | _ -> s in
+  (* bucket entries (odd flags): a 16-byte header carries the child's root page id, which the model cannot know - only its sequence half is compared *)
+  let exact_names = ref [] in
+  let rec ndiff path (m : Tree.nt) (i : Tree.nt) : string =
+    let mask (x : Node.inode) =
+      if int_of_n x.Node.i_flags land 1 = 1 && List.length x.Node.i_val = 16 then { x with Node.i_val = List.filteri (fun k _ -> k >= 8) x.Node.i_val }
+      else if int_of_n x.Node.i_flags land 1 = 1 && not (List.mem x.Node.i_key !exact_names) then
+        (* an inline child whose tree was recorded with digests only: the model knows the length of the stored value, not its bytes *)
+        { x with Node.i_val = List.map (fun _ -> BinNums.N0) x.Node.i_val }
+      else x in
+    match m, i with
+    | Tree.NT (hm, im, km), Tree.NT (hi, ii, ki) ->
+      let d = diff path (Tree.NT (hm, List.map mask im, [])) (Tree.NT (hi, List.map mask ii, [])) in
+      if d <> "" then d else if List.length km <> List.length ki then Printf.sprintf "%s: children impl=%d model=%d" path (List.length ki) (List.length km)
+      else (let rec go n a b = match a, b with x :: ar, y :: br -> let d = ndiff (Printf.sprintf "%s/%d" path n) x y in if d <> "" then d else go (n + 1) ar br | _ -> "" in go 0 km ki) in
+  let judge_nested () =
+    match !pre, !post with
+    | Some t, Some p ->
+      incr ops;
+      let all_evs = ref [] and ok = ref true in
+      exact_names := List.filter (fun n -> List.mem n !raw_children) (List.map (fun (n, _, _) -> n) !children);
+      let values = List.filter_map (fun (name, seq, ct) ->
+        let order = try List.assoc name !corders with Not_found -> [] in
+        match Tree.commit_bucket !ps !fill fuel ct order with
+        | Base.Ok ((mt, mevs), minl) ->
+          all_evs := !all_evs @ mevs;
+          if minl then flag "child-inline-after" else flag "child-paged-after";
+          (* the child after the commit *)
+          (match List.find_opt (fun (n, _, _) -> n = name) !cposts with
+           | Some (_, iinl, ipost) ->
+             if iinl <> minl then (report want04 "MISMATCH" "child_inline_decision" (string_of_bool iinl) (string_of_bool minl); ok := false)
+             else (let d = diff "" (if List.mem name !raw_children then norm_tree mt else mt) (if iinl then norm_tree ipost else ipost) in if d <> "" then (report want04 "MISMATCH" "child_tree_after_commit" d (hex_of_bytes name); ok := false))
+           | None -> ());
+          if not (hd ct).Tree.h_mat then None       (* no materialised root: the child is not written back *)
+          else if minl then (match Node.bucket_write seq { Node.n_leaf = true; n_unbal = false; n_inodes = ins mt } with
+              | Base.Ok b -> Some (name, norm_val b) | _ -> ok := false; None)
+          else Some (name, Node.bucket_header_value BinNums.N0 seq)
+        | _ -> report (want04 || want07) "MISMATCH" "tree_model" "commit succeeded" ("model: child " ^ hex_of_bytes name ^ " inconsistent"); ok := false; None) !children in
+      if !ok then begin
+        match Tree.commit_parent !ps !fill fuel t !order values with
+        | Base.Ok (mt, mevs) ->
+          let d = ndiff "" mt p in
+          if d <> "" then report want04 "MISMATCH" "parent_tree_after_commit" d "see impl";
+          let iev = !fl in
+          let n = List.length iev in
+          let mine = List.filteri (fun idx _ -> idx < n - 4) iev in
+          let ie = multiset (List.map strip mine) and me = multiset (List.map show_ev (mevs @ !all_evs)) in
+          if ie <> me then report want07 "MISMATCH" "freelist_events_of_commit_with_children" (String.concat " " ie) (String.concat " " me);
+          if List.length values > 0 then flag "child-written-back";
+          if List.length !children > List.length values then flag "clean-child-skipped";
+          if int_of_nat (Tree.depth fuel t) >= 2 then flag "parent-depth2+"
+        | Base.Panic -> report (want04 || want07) "MISMATCH" "tree_model" "commit succeeded" "model: parent inconsistent (Panic)"
+        | Base.OutOfFuel -> report (want04 || want07) "MISMATCH" "tree_model" "commit succeeded" "model: out of fuel"
+      end
+    | _ -> () in
   let judge () =
     match !pre, !post with
     | Some t, Some praw ->
@@ -146,7 +205,7 @@ let run mode file =
     let line = input_line ic in
     match split_ws line with
     | "case" :: id :: rest ->
-      incr cases; case_id := id; flags := []; pre := None; post := None; order := []; fl := [];
+      incr cases; case_id := id; flags := []; pre := None; post := None; order := []; fl := []; children := []; corders := []; cposts := []; raw_children := [];
       let kv = kv_of rest in
       ps := n_of_string (get kv "ps"); fill := n_of_string (get kv "fill"); inline := (get kv "inline" = "1"); digest := "";
       bval := ""; seq := (let q = get kv "seq" in if q = "" then BinNums.N0 else n_of_string q)
@@ -154,9 +213,15 @@ let run mode file =
     | "post" :: toks -> post := Some (fst (parse_tree toks))
     | ["order"; o] -> order := ns_of_csv o
     | ["bval"; v] -> bval := v
+    | "child" :: name :: sq :: _ :: toks ->
+      let seqv = (match String.split_on_char '=' sq with [_; v] -> n_of_string v | _ -> BinNums.N0) in
+      children := !children @ [(bytes_of_hex name, seqv, fst (parse_tree toks))];
+      if List.mem "small=1" (split_ws line) then raw_children := bytes_of_hex name :: !raw_children
+    | ["corder"; name; o] -> corders := (bytes_of_hex name, ns_of_csv o) :: !corders
+    | "cpost" :: name :: il :: toks -> cposts := (bytes_of_hex name, il = "inline=1", fst (parse_tree toks)) :: !cposts
     | "fl" :: evs -> fl := evs
     | ["end"] ->
-      judge ();
+      (if nested then judge_nested () else judge ());
       Printf.printf "CASE %s %s %s\n" !case_id !digest (if !flags = [] then "-" else String.concat "," (List.rev !flags))
     | _ -> ()
   done with End_of_file -> ());
